@@ -311,6 +311,10 @@ def run(chk):
                      label="AccSignal.gen_response_spectrum~generate_response_spectrum")
     sibling_defaults(chk, "R-GUARD", [S_ + ".gen_smooth_fa_spectrum", S_ + ".generate_smooth_fa_spectrum", "eqsig.fns.frequency.calc_smooth_fa_spectrum"],
                      label="Signal.gen_smooth_fa_spectrum~generate_smooth_fa_spectrum~calc_smooth_fa_spectrum")
+    chk.rule("R-OWNS", "each signal object owns its samples (constructor and reset_values store a fresh array): no write that bypasses the object's own invalidation can reach its values")
+    from ..tyob import owns_values
+    owns_values(chk, "R-OWNS")
+    chk.floor("R-OWNS", 4)
     chk.floor("R-GUARD", 30)
     chk.floor("R-INV", 90)
     chk.floor("R-CLEAR", 2)
